@@ -132,6 +132,7 @@ class Field:
         self.dyn_offset = dyn_offset  # None | name of the field added to the static offset
         self.virtual = virtual        # None | ('alias', target) | ('expr', text, fn(values)->int, deps, writable)
         #                               | ('bool', text, fn(values)->bool, deps, False)
+        self.sym = None               # layout virtuals: symbolic form ('+'|'*'|'>'|'=', source, constant) | ('alias', source)
         self.layout = False           # virtual field whose value is used by the location / size /
         #                               existence condition of another field of the struct
         self.anonymous_bits = anonymous_bits  # None | StructT (kind 'bits') for `N [+k] bits:`
@@ -349,13 +350,17 @@ def gen_struct(r, name, enums, fixed_structs, bits_types, allow_dynamic=True, nf
                 c = r.randint(0, 2)
                 if r.random() < 0.5:
                     virt = ("bool", "%s > %d" % (src, c), (lambda vals, s=src, c=c: vals[s] > c), [src], False)
+                    sym = (">", src, c)
                 else:
                     virt = ("bool", "%s == %d" % (src, c), (lambda vals, s=src, c=c: vals[s] == c), [src], False)
+                    sym = ("=", src, c)
                 f = Field(nm, None, 0, 0, virtual=virt, attr=at)
+                f.sym = sym
                 lay_bool.append(nm)
             elif style == "alias":
                 nm = fname("la")
                 f = Field(nm, None, 0, 0, virtual=("alias", src), attr=at)
+                f.sym = ("alias", src)
                 writable[nm], vmax[nm] = writable[src], vmax[src]
                 lay_int.append((nm, vmax[nm]))
             elif style == "add":
@@ -364,6 +369,7 @@ def gen_struct(r, name, enums, fixed_structs, bits_types, allow_dynamic=True, nf
                 f = Field(nm, None, 0, 0, attr=at,
                           virtual=("expr", "%s + %d" % (src, k), (lambda vals, s=src, k=k: vals[s] + k), [src],
                                    writable[src]))
+                f.sym = ("+", src, k)
                 writable[nm], vmax[nm] = writable[src], vmax[src] + k
                 lay_int.append((nm, vmax[nm]))
             else:
@@ -371,6 +377,7 @@ def gen_struct(r, name, enums, fixed_structs, bits_types, allow_dynamic=True, nf
                 k = r.randint(2, 3)
                 f = Field(nm, None, 0, 0, attr=at,
                           virtual=("expr", "%s * %d" % (src, k), (lambda vals, s=src, k=k: vals[s] * k), [src], False))
+                f.sym = ("*", src, k)
                 writable[nm], vmax[nm] = False, vmax[src] * k
                 lay_int.append((nm, vmax[nm]))
             f.layout = True
